@@ -51,6 +51,12 @@ def check_file(vd, path, rec, machine, key):
             vd.observe(key + ": type rendered as %s, expected STT_%s" % (tname, et), {"index": i, "file": path}); return False
         if eb and bname != "STB_" + eb:
             vd.observe(key + ": binding rendered as %s, expected STB_%s" % (bname, eb), {"index": i, "file": path}); return False
+        # a code without a name in the family is shown relative to the ELF range it lies in (LOOS = 10,
+        # LOPROC = 13): whatever base the text names, base + offset must be the stored code
+        for txt, code, pfx in ((tname, s["type"], "STT_"), (bname, s["bind"], "STB_")):
+            mm = re.match(r"^" + pfx + r"(LOOS|LOPROC)\+(\d+)$", txt)
+            if mm and {"LOOS": 10, "LOPROC": 13}[mm.group(1)] + int(mm.group(2)) != code:
+                vd.observe(key + ": code %d rendered as %s" % (code, txt), {"index": i, "file": path}); return False
         if vname != "STV_" + STV_NAMES[s["vis"]]:
             vd.observe(key + ": visibility rendered as %s" % vname, {"index": i, "file": path}); return False
     return True
